@@ -404,3 +404,18 @@ func deepCopyRec(v reflect.Value) reflect.Value {
 	}
 	return v
 }
+
+// DumpN is Dump with nil slices / maps rendered like empty ones (codec round trips).
+func DumpN(v any) []string {
+	out := Dump(v)
+	for i, l := range out {
+		if n := len(l); n > 10 && l[n-10:] == "=nil-slice" {
+			out[i] = l[:n-10] + ".len=0"
+		} else if n > 7 && l[n-7:] == "=bytes:" {
+			out[i] = l[:n-7] + ".len=0"
+		} else if n > 8 && l[n-8:] == "=nil-map" {
+			out[i] = l[:n-8] + ".len=0"
+		}
+	}
+	return out
+}
